@@ -76,7 +76,8 @@ class Runner:
                 data = bytes.fromhex(case["payload_hex"])
                 exps, _, _ = canboat.ref_decode(target, int.from_bytes(data, "little"), len(data))
                 pk = tuple((e.u if (e.u is not None and not e.field.type.startswith("STRING")) else
-                            "msg:" + repr(m.fields[e.field.index].raw_value) if e.field.index < len(m.fields) else None) for e in exps if e.field.pk)
+                            "txt:" + repr(e.value) if (e.field.type == "STRING_LAU" and e.kind == "str" and e.value is not None) else
+                            "txt:" + repr(m.fields[e.field.index].raw_value) if e.field.index < len(m.fields) else None) for e in exps if e.field.pk)
             except Exception:
                 pk = None
         if pk is None:
@@ -134,6 +135,17 @@ def family(draw, d):
             u = gen._draw_value(draw, f, cl[draw(st.sampled_from(names))])
             m = ((1 << f.bits) - 1) << f.offset_bits
             out.append(((base & ~m) | (u << f.offset_bits), nbytes, "key_changed"))
+        # a value that moves from one key field to another, the field it leaves becoming "not available": (v, n/a) vs (n/a, v)
+        nak = [f for f in pk if f.na_code() is not None and not f.na_in_range() and f.match is None]
+        if len(nak) >= 2:
+            f1, f2 = draw(st.permutations(nak))[:2]
+            v = draw(st.integers(0, 3))
+            b1, b2 = gen.raw_bounds(f1), gen.raw_bounds(f2)
+            if b1 and b2 and b1[0] <= v <= b1[1] and b2[0] <= v <= b2[1]:
+                m1, m2 = ((1 << f1.bits) - 1) << f1.offset_bits, ((1 << f2.bits) - 1) << f2.offset_bits
+                rest = base & ~m1 & ~m2
+                out.append((rest | (v << f1.offset_bits) | (f2.na_code() << f2.offset_bits), nbytes, "key_changed"))
+                out.append((rest | (f1.na_code() << f1.offset_bits) | (v << f2.offset_bits), nbytes, "key_changed"))
     else:
         p2, n2, _ = draw(gen.payloads(d, mode="accepted", extra_bytes=False))
         out.append((p2, n2, "redrawn"))
@@ -143,8 +155,8 @@ def family(draw, d):
         for e in exps:
             if e.field.pk and e.field.type == "STRING_LAU" and wf and e.bits and e.bits >= 16:
                 typ = (base >> (e.pos + 8)) & 0xFF
-                ch = draw(st.sampled_from(["\x00", " ", "_", "0", "A"]))
-                extra = ch.encode("ascii") if typ == 1 else ch.encode("utf-16-le")
+                ch = draw(st.sampled_from(["\x00", " ", "_", "0", "A", "\u00c5", "\u00e9", "\u00d8", "\u4e2d"]))
+                extra = ch.encode("utf-8") if typ == 1 else ch.encode("utf-16-le")
                 L = e.bits // 8
                 if L + len(extra) > 255:
                     continue
